@@ -855,3 +855,34 @@ Proof.
   rewrite (idle_late _ (tl js) T _ _ _ (next_due_rstate _ _ _ _)) by lia.
   reflexivity.
 Qed.
+
+(* Second episode after a give-up: new traffic resets the attempt counter
+   (SendStagedPackets calls SendHandshakeInitiation(false)), so the new
+   initiation is retransmitted again instead of being given up at its first
+   expiry. *)
+Theorem second_episode_after_giveup : forall i t g t' ids j j2,
+  t + RekeyTimeout <= t' -> jit_ok j ->
+  t' + RekeyTimeout + ms * fst j < g + RejectAfterTime * 3 ->
+  let r := step (gstate i t g) (mkev t' (ITun ids) j) in
+  let d := t' + RekeyTimeout + ms * fst j in
+  snd r = [OInit] /\ attempts (fst r) = 0 /\ next_due (fst r) = Some (TRetransmit, d) /\
+  snd (fire d (fst j2) (snd j2) TRetransmit (fst r)) = [OInit] /\
+  attempts (fst (fire d (fst j2) (snd j2) TRetransmit (fst r))) = 1.
+Proof.
+  intros i t g t' ids j j2 H1 Hj H2 r d.
+  assert (E : r = ({| active := true; tm_retransmit := {| pending := true; deadline := d |};
+                      tm_keepalive := toff; tm_newhs := toff;
+                      tm_zero := {| pending := true; deadline := g + RejectAfterTime * 3 |};
+                      tm_persist := toff; attempts := 0; need_another := false;
+                      sent_last_minute := false; last_sent_hs := t'; pka := 0;
+                      staged := [map Pkt ids]; kp_cur := None; kp_next := None;
+                      hs := hsInitiationCreated |}, [OInit])).
+  { subst r d. unfold gstate, toff. go. all: try lia'.
+    unfold t_mod. rewrite N.add_assoc. reflexivity. }
+  rewrite E. cbn [fst snd attempts].
+  refine (conj eq_refl (conj eq_refl (conj _ _))).
+  - unfold next_due, all_tids, toff. cbn [earliest get_timer tm_retransmit tm_keepalive tm_newhs
+      tm_persist tm_zero pending deadline].
+    rewrite (proj2 (N.ltb_ge _ _)) by (subst d; lia). reflexivity.
+  - unfold toff. go. all: try lia'. all: split; reflexivity.
+Qed.
